@@ -16,18 +16,18 @@ import Dashu.Proofs.Text.Float
   model, C03) and the large-exponent branch through `ln`/`exp` (judged per case by exact
   arithmetic; it does *not* meet the contract — two recorded findings).
 
-  -- theorem parse_eq_grammar_full (W B s) : fromStrNative W true B s = parseFloatSpec B s
-  -- theorem display_eq_spec_full   (B m plus prec r) : fmtRound true B m {plus} prec r = displaySpec B m plus prec r
+  -- theorem parse_eq_grammar_full (W B s) : fromStrNative W B s = parseFloatSpec B s
+  -- theorem display_eq_spec_full   (B m plus prec r) : fmtRound B m {plus} prec r = displaySpec B m plus prec r
   -- theorem print_parse_round_trip_full (W B m r) (hr : Normalized B r) :
-  --     (fromStrNative W true B (fmtRound true B m {} none r)).map (·.1) = .ok r
+  --     (fromStrNative W B (fmtRound B m {} none r)).map (·.1) = .ok r
 -/
 namespace Dashu.Props.C08
 open Dashu.Model.Text Dashu.Model.Float
 
 /-- target base a power of the source base (`NewB = B^n`): the branch taken by `convert_base` -/
-theorem convert_base_pow_up_branch (W : Nat) (fx : Bool) (B NewB : Nat) (m : Mode) (p : Nat) (r : FRepr)
+theorem convert_base_pow_up_branch (W : Nat) (B NewB : Nat) (m : Mode) (p : Nat) (r : FRepr)
     (hgt : NewB > B) (hn : 1 < ilogExact NewB B) :
-    convertBase W fx B NewB m p r =
+    convertBase W B NewB m p r =
       .ok (reprRound NewB m coarseNone p
         (FRepr.new NewB (r.signif * ((B ^ (r.exp % (ilogExact NewB B : Int)).toNat : Nat) : Int))
           (r.exp / (ilogExact NewB B : Int)))) := by
@@ -56,9 +56,9 @@ theorem ilog_exact_sound (n base k : Nat) (h : ilogExact n base = k) (hk : k ≠
   ilogExact_spec n base k h hk
 
 /-- source base a power of the target base (`B = NewB^n`) -/
-theorem convert_base_pow_down_branch (W : Nat) (fx : Bool) (B NewB : Nat) (m : Mode) (p : Nat) (r : FRepr)
+theorem convert_base_pow_down_branch (W : Nat) (B NewB : Nat) (m : Mode) (p : Nat) (r : FRepr)
     (hlt : NewB < B) (hn : 1 < ilogExact B NewB) :
-    convertBase W fx B NewB m p r =
+    convertBase W B NewB m p r =
       .ok (reprRound NewB m coarseNone p (FRepr.new NewB r.signif (r.exp * (ilogExact B NewB : Nat)))) := by
   unfold convertBase
   have h1 : NewB ≠ B := by omega
